@@ -1858,9 +1858,105 @@ def correspond_typedef_stmts(ctx, corr):
                                            what="typedef statement `typedef %s`: %s" % (' '.join(toks), msg)))
 
 
+# operator functions at namespace scope: extracted op_fn_stmt (Parse/OperatorFn.v) vs parse_string
+
+def real_op_fn(text):
+    try:
+        d = parse_string(text)
+    except (impl.CxxParseError, AssertionError, RecursionError):
+        return ('err',)
+    ns = d.namespace
+    if len(ns.functions) != 1 or ns.variables or ns.typedefs or ns.classes or ns.using_alias or ns.enums or ns.forward_decls or ns.method_impls:
+        return ('other',)
+    f = ns.functions[0]
+    if (not f.operator or f.has_trailing_return or f.template or f.msvc_convention or f.raw_requires or len(f.name.segments) != 1
+            or f.name.segments[0].name != 'operator' + f.operator or f.name.segments[0].specialization):
+        return ('other',)
+    try:
+        ps = []
+        for p in f.parameters:
+            if p.default is not None or p.param_pack:
+                return ('other',)
+            ps.append((decl.from_real(p.type), p.name))
+        t = ('F', decl.from_real(f.return_type), tuple(ps), f.vararg)
+    except decl.Unrepresentable:
+        return ('other',)
+    val = lambda v: None if v is None else tuple(x.value for x in v.tokens)
+    return ('ok', (f.constexpr, f.extern, f.inline, f.static), f.operator, t, val(f.throw), val(f.noexcept), f.has_body, f.deleted)
+
+
+def correspond_op_fns(ctx, corr):
+    from harness.props import c03
+    rng = ctx.rng
+    cases = []
+    for _ in range(ctx.scale(700, 14000)):
+        pre = [rng.choice(['constexpr', 'inline', 'static', 'extern', 'const']) for _ in range(rng.choice([0, 0, 1, 2]))]
+        ty = [rng.choice(['Foo', 'T', 'bool_t', 'Bar', 'void'])]
+        for _ in range(rng.choice([0, 0, 1, 2])):
+            ty += rng.choice([['*'], ['*', 'const'], ['&'], ['&&']])
+        ps = []
+        for j in range(rng.choice([1, 1, 2])):
+            while True:
+                q = decl.rand_type(rng, rng.choice([0, 1, 2]))
+                if decl.var_ok(q):
+                    break
+            ps.append((q, rng.choice([None, 'a%d' % j])))
+        toks = pre + ty + ['operator'] + list(rng.choice(c03.OPM_OPS)) + ['('] + decl.print_params(tuple(ps), False) + [')']
+        toks += list(rng.choice(TAIL_SPECS))
+        r = rng.random()
+        toks += [';'] if r < 0.5 else (list(rng.choice(BODIES)) if r < 0.8 else ['=', 'delete', ';'])
+        cases.append(toks)
+        if rng.random() < 0.3:
+            cases.append(c02.mutate(rng, toks) or [';'])
+    lines, nms = [], []
+    for toks in cases:
+        names = decl.Names()
+        lines.append([115] + decl.enc_tokens(toks, names))
+        nms.append(names)
+    for toks, o, names in zip(cases, run_driver(lines), nms):
+        corr.cases += 1
+        if o[0] == 0:
+            fl = [bool(x) for x in o[2:11]]
+            nop = o[11]
+            op = ''.join(names.rev[o[12 + 2 * j + 1]] if o[12 + 2 * j + 1] else impl.TT[o[12 + 2 * j]] for j in range(nop))
+            i = 12 + 2 * nop
+            ln = o[i]
+            t, _j = decl.dec_type(o, i + 1, names)
+            i = i + 1 + ln
+
+            def opt(i):
+                if o[i] == 0:
+                    return None, i + 1
+                cnt = o[i + 1]
+                vals = tuple(names.rev[o[i + 2 + 2 * q + 1]] if o[i + 2 + 2 * q + 1] else impl.TT[o[i + 2 + 2 * q]] for q in range(cnt))
+                return vals, i + 2 + 2 * cnt
+            th, i = opt(i)
+            ne, i = opt(i)
+            m = ('ok', (fl[2], fl[3], fl[4], fl[5]), op, t, th, ne, bool(o[i]), bool(o[i + 1]), o[1])
+        else:
+            m = ('err', o[1])
+        r = real_op_fn(' '.join(toks))
+        k = "opfn:" + (m[0] if m[0] == 'ok' else 'err%d' % m[1]) + "/" + r[0]
+        corr.dist[k] = corr.dist.get(k, 0) + 1
+        msg = None
+        if m[0] == 'ok' and m[8] == 0:
+            if r[0] == 'err':
+                msg = "model decodes the operator function but the implementation rejects it"
+            elif r[0] == 'ok' and tuple(r[1:]) != tuple(m[1:8]):
+                msg = "model %s; implementation %s" % (m[1:8], r[1:])
+        elif m[0] == 'err' and m[1] in (1, 2, 3) and r[0] == 'ok':
+            msg = "model rejects (code %d) but the implementation reports %s" % (m[1], r[1:])
+        elif m[0] == 'err' and m[1] == 9:
+            msg = "model ran out of fuel"
+        if msg:
+            corr.disagreements.append(dict(case=dict(kind='corr-opfn', tokens=toks), model=str(m)[:400], impl=str(r)[:400],
+                                           what="operator function `%s`: %s" % (' '.join(toks), msg)))
+
+
 def correspond(ctx):
     corr = Corr()
     rng = ctx.rng
+    correspond_op_fns(ctx, corr)
     correspond_typedef_stmts(ctx, corr)
     from harness import dispatchcorr
     dispatchcorr.correspond_dispatch(ctx, corr, only=('extern', 'inline', 'typedef'))
